@@ -15,6 +15,8 @@ package main
 
 import (
 	"fmt"
+	"go/types"
+	"os"
 	"strings"
 
 	"golang.org/x/tools/go/ssa"
@@ -27,6 +29,45 @@ func (w *World) ruleEveryValueStored(r *Report, rule string) {
 		return
 	}
 	reachesRD := w.canReach(map[*ssa.Function]bool{rd: true})
+	// functions that consume input: they (transitively) invoke a method of the stream
+	// reader interface; a loop may read its elements with a specialised reader
+	// (readTag + readDate) instead of the value dispatch
+	consumers := map[*ssa.Function]bool{}
+	for _, fn := range w.allPkgFuncs() {
+		for _, b := range fn.Blocks {
+			for _, in := range b.Instrs {
+				c, ok := in.(*ssa.Call)
+				if !ok {
+					continue
+				}
+				if c.Call.IsInvoke() {
+					switch c.Call.Method.Name() {
+					case "ReadByte", "ReadRune", "Read", "UnreadByte":
+						consumers[fn] = true
+					}
+					continue
+				}
+				// the stream handed to library code (io.ReadFull(reader, buf))
+				if sc := c.Call.StaticCallee(); sc != nil && !w.inPkg(sc) {
+					for _, a := range c.Call.Args {
+						if it, ok := a.Type().Underlying().(*types.Interface); ok {
+							for i := 0; i < it.NumMethods(); i++ {
+								if it.Method(i).Name() == "Read" || it.Method(i).Name() == "ReadByte" {
+									consumers[fn] = true
+								}
+							}
+						}
+					}
+				}
+			}
+		}
+	}
+	for f := range w.canReach(consumers) {
+		reachesRD[f] = true
+	}
+	if os.Getenv("HLINT_DEBUG") != "" {
+		fmt.Fprintf(os.Stderr, "elemstore consumers=%v\n", sortedFnNames(consumers))
+	}
 	// in-package functions that end in a reflect setter and do not read the stream
 	setterFns := map[*ssa.Function]bool{}
 	for _, fn := range w.allPkgFuncs() {
@@ -92,6 +133,9 @@ func (w *World) ruleEveryValueStored(r *Report, rule string) {
 		}
 		for li, lp := range naturalLoops(fn) {
 			reads := w.elementReads(lp, reachesRD)
+			if os.Getenv("HLINT_DEBUG") != "" {
+				fmt.Fprintf(os.Stderr, "elemstore %s loop %d reads=%d\n", fnName(fn), li, len(reads))
+			}
 			if len(reads) == 0 {
 				continue
 			}
@@ -125,41 +169,47 @@ func (w *World) ruleEveryValueStored(r *Report, rule string) {
 				continue
 			}
 			n++
-			last := reads[len(reads)-1]
-			// DFS from the instruction after the last read to the header, stopping at stores
+			// DFS from the instruction after each read to the header, stopping at stores
 			reached, via := false, ""
-			seen := map[*ssa.BasicBlock]bool{}
-			var scan func(b *ssa.BasicBlock, from int)
-			scan = func(b *ssa.BasicBlock, from int) {
-				for _, in := range b.Instrs[from:] {
-					if isStore(in) {
-						return
-					}
+			var last *ssa.Call
+			for _, rdCall := range reads {
+				if reached {
+					break
 				}
-				for _, s := range b.Succs {
-					if !lp.body[s] {
-						continue
-					}
-					if s == lp.header {
-						reached = true
-						if via == "" {
-							via = w.instrPos(b.Instrs[len(b.Instrs)-1])
+				last = rdCall
+				seen := map[*ssa.BasicBlock]bool{}
+				var scan func(b *ssa.BasicBlock, from int)
+				scan = func(b *ssa.BasicBlock, from int) {
+					for _, in := range b.Instrs[from:] {
+						if isStore(in) {
+							return
 						}
-						continue
 					}
-					if !seen[s] {
-						seen[s] = true
-						scan(s, 0)
+					for _, s := range b.Succs {
+						if !lp.body[s] {
+							continue
+						}
+						if s == lp.header {
+							reached = true
+							if via == "" {
+								via = w.instrPos(b.Instrs[len(b.Instrs)-1])
+							}
+							continue
+						}
+						if !seen[s] {
+							seen[s] = true
+							scan(s, 0)
+						}
 					}
 				}
-			}
-			idx := 0
-			for i, in := range last.Block().Instrs {
-				if in == ssa.Instruction(last) {
-					idx = i + 1
+				idx := 0
+				for i, in := range last.Block().Instrs {
+					if in == ssa.Instruction(last) {
+						idx = i + 1
+					}
 				}
+				scan(last.Block(), idx)
 			}
-			scan(last.Block(), idx)
 			fact := "after a successful element read every way back to the loop header passes a store into the container"
 			if reached {
 				fact = "an iteration can complete (back edge at " + via + ") after the element read at " + w.instrPos(last) + " without storing anything: in the append-built forms the element is dropped and every later one shifts (a null — empty string, zero time, nil — is a value)"
